@@ -91,12 +91,17 @@ class Acc:
 _DEADLINE = [None]
 
 
+def _now():
+    from . import target
+    return target.clock.real()
+
+
 def set_deadline(seconds):
-    _DEADLINE[0] = time.time() + seconds
+    _DEADLINE[0] = _now() + seconds
 
 
 def out_of_time():
-    return _DEADLINE[0] is not None and time.time() > _DEADLINE[0]
+    return _DEADLINE[0] is not None and _now() > _DEADLINE[0]
 
 
 def h8(*parts):
